@@ -3,6 +3,8 @@
 sid=$1; tier=${2:-quick}; id=${sid%%-*}   # seeded/C03-2 is a second seeded change for C03
 cd /repo && git diff --quiet || { echo "/repo is dirty"; exit 9; }
 git apply /verif/seeded/$sid/patch.diff || { echo "patch does not apply"; exit 9; }
+cp /verif/evidence/$id.json /tmp/seed-evidence-$id.json 2>/dev/null   # the evidence file describes the unchanged tree: keep it
 cd /verif && timeout 3000 ./check $id $tier > /tmp/seedrun-$sid.log 2>&1; rc=$?
+cp /tmp/seed-evidence-$id.json /verif/evidence/$id.json 2>/dev/null
 cd /repo && git checkout -- . 
 echo "check $id $tier on seeded tree ($sid): exit $rc"; grep -m3 -A1 "VIOLATION\|INCONCLUSIVE" /tmp/seedrun-$sid.log | cut -c1-300
